@@ -258,6 +258,34 @@ func c03Gen(g *hx.Gen) {
 				emit("GET", s.prefix+"/"+esc+tail, "", "")
 			}
 		}
+		// detours: every entry reached through every directory and back up (plain and
+		// percent-encoded dot segments, also through a directory that does not exist)
+		var relDirs []string
+		for _, e := range fx.entries {
+			if e.isDir && strings.HasPrefix(e.path, "/site/") {
+				relDirs = append(relDirs, strings.TrimPrefix(e.path, "/site"))
+			}
+		}
+		relDirs = append(relDirs, "/nonexistent", "/secret/nonexistent")
+		for _, e := range fx.entries {
+			if !strings.HasPrefix(e.path, "/site/") {
+				continue
+			}
+			rel := strings.TrimPrefix(e.path, "/site")
+			for i, d := range relDirs {
+				up := strings.Repeat("/..", strings.Count(d, "/"))
+				if i%3 == 1 {
+					up = strings.Repeat("/%2e%2e", strings.Count(d, "/"))
+				}
+				emit("GET", s.prefix+d+up+rel, "", "")
+				if i%4 == 0 {
+					emit("GET", s.prefix+d+up+rel, "gzip", "bob:wrong")
+				}
+			}
+			// too many dot-dots, and a detour through the place outside the root
+			emit("GET", s.prefix+"/../.."+rel, "", "")
+			emit("GET", s.prefix+"/pub/../../site"+rel, "", "")
+		}
 		// exhaustive pairs of segments without credentials
 		for _, a := range alpha {
 			emit("GET", s.prefix+"/"+a, "", "")
